@@ -503,6 +503,22 @@ class InterpCore:
         if len(body) == 1 and isinstance(body[0], ast.If) and not body[0].orelse and len(body[0].body) == 1:
             conds.append(body[0].test)
             body = body[0].body
+        # `acc += [e]` and `acc.extend([e])` are `acc.append(e)`
+        if len(body) == 1 and isinstance(body[0], ast.AugAssign) and isinstance(body[0].op, ast.Add) and isinstance(body[0].target, ast.Name) \
+                and isinstance(body[0].value, ast.List) and len(body[0].value.elts) == 1 and not isinstance(body[0].value.elts[0], ast.Starred):
+            call = ast.Call(func=ast.Attribute(value=ast.Name(id=body[0].target.id, ctx=ast.Load()), attr="append", ctx=ast.Load()),
+                            args=[body[0].value.elts[0]], keywords=[])
+            body = [ast.copy_location(ast.Expr(value=ast.copy_location(call, body[0])), body[0])]
+            ast.fix_missing_locations(body[0])
+        elif len(body) == 1 and isinstance(body[0], ast.Expr) and isinstance(body[0].value, ast.Call) \
+                and isinstance(body[0].value.func, ast.Attribute) and body[0].value.func.attr == "extend" \
+                and isinstance(body[0].value.func.value, ast.Name) and len(body[0].value.args) == 1 \
+                and isinstance(body[0].value.args[0], ast.List) and len(body[0].value.args[0].elts) == 1 \
+                and not isinstance(body[0].value.args[0].elts[0], ast.Starred) and not body[0].value.keywords:
+            old = body[0].value
+            call = ast.Call(func=ast.Attribute(value=old.func.value, attr="append", ctx=ast.Load()), args=[old.args[0].elts[0]], keywords=[])
+            body = [ast.copy_location(ast.Expr(value=ast.copy_location(call, old)), body[0])]
+            ast.fix_missing_locations(body[0])
         if len(body) != 1 or not isinstance(body[0], ast.Expr):
             return None
         c = body[0].value
@@ -559,7 +575,35 @@ class InterpCore:
         if not broke:
             self.exec_block(st.orelse, fr)
 
+    def _iterator_protocol_loop(self, st: ast.While, fr: Frame) -> Optional[Tuple[ast.expr, V]]:
+        """`while (x := next(it, SENTINEL)) is not SENTINEL: body` where `it` is a local bound to iter(S): the loop
+        `for x in S: body`.  Returns (target, S)."""
+        t = st.test
+        if not (isinstance(t, ast.Compare) and len(t.ops) == 1 and isinstance(t.ops[0], ast.IsNot) and isinstance(t.left, ast.NamedExpr)):
+            return None
+        call = t.left.value
+        if not (isinstance(call, ast.Call) and isinstance(call.func, ast.Name) and call.func.id == "next" and len(call.args) == 2
+                and isinstance(call.args[0], ast.Name) and not call.keywords):
+            return None
+        if ast.dump(call.args[1]) != ast.dump(t.comparators[0]):
+            return None
+        itv = fr.locals.get(call.args[0].id)
+        if not (isinstance(itv, Term) and itv.op == "call" and itv.args and itv.args[0] == "builtins.iter" and len(itv.args) == 2
+                and isinstance(itv.args[1], V)):
+            return None
+        if st.orelse:
+            return None
+        return t.left.target, itv.args[1]
+
     def s_While(self, st: ast.While, fr: Frame) -> None:
+        proto = self._iterator_protocol_loop(st, fr)
+        if proto is not None:
+            target, src = proto
+            loop = ast.For(target=target, iter=ast.Constant(value=None), body=st.body, orelse=[], type_comment=None)
+            ast.copy_location(loop, st)
+            ast.fix_missing_locations(loop)
+            self.s_For(loop, fr, it=src)
+            return
         n = 0
         while n <= self.unroll:
             v = self.eval(st.test, fr)
